@@ -26,7 +26,24 @@ HOOK_COMMITS = []
 # reasons for properties that are not claimed (yet)
 NOT_CLAIMED = {}
 
+def _c20_nontrivial(cf):
+    import binascii
+    pat = cf[6]
+    return pat != "-" and (b"*" in binascii.unhexlify(pat) or b"%" in binascii.unhexlify(pat))
+
+
 PROPS = {
+    "C20": dict(
+        correspondence="GoImap.ListMatch.matchListTop (Model/ListMatch.lean) vs imapserver.MatchList on the same (name, delimiter, reference, pattern)",
+        rule="exhaustive small scope: every name over {a,b,/} up to length 5 (thorough 6) x every pattern over {a,b,/,*,%} up to length 4 (thorough 5) x delimiter {'/', none} x references {'', a, a/, b/a}, one case line per (delimiter, reference, pattern) carrying a bitmap over all names; plus random longer names/patterns incl. UTF-8 and other delimiters. Non-trivial = the pattern contains a wildcard; distinct = different case line",
+        nontrivial=_c20_nontrivial,
+        exhaustive=True,
+        trusted=["strings.IndexAny/HasPrefix/TrimPrefix are modelled by byte-level recursion (agreement exercised exhaustively in the small scope)"],
+        assumptions=["the oracle (theorems and Spec) covers an absent or single-byte ASCII delimiter; other delimiter runes are compared with the model only"],
+        leanchecker=True,
+        level_text="proof: matchList_iff shows the mirrored recursive matcher accepts exactly the names the inductive wildcard semantics (Spec.Matches) accepts, for all patterns, names and delimiters; the mirror is tied to imapserver.MatchList exhaustively in a small scope and randomly beyond on every run, and an independent position-set matcher written from the RFC is evaluated on the implementation's answers",
+        level_note="Trusted: Lean kernel; harness/driver; the byte-level normal form of the chunked Go loop (validated exhaustively for names<=5/patterns<=4 over a 3/5-letter alphabet).",
+    ),
     "C15": dict(
         correspondence="GoImap.NumSet (Model/NumSet.lean) vs internal/imapnum.Set and imap.SeqSet/UIDSet: ranges, String, Dynamic, Contains on probes, Nums, ParseSet after every operation",
         rule="op sequences (length<=12, endpoints from small numbers, 2^31, 2^32-4..2^32-1 and '*'; all sequences of length<=2 (quick) / <=3 (thorough) over a 7-value alphabet), enumeration of every resulting set of cardinality<=20000, grammar-generated and mutated sequence-set texts; a case is non-trivial when a merge, a proper range or a dynamic element is involved (ops), the set is non-empty (nums) or the text parses (parse); distinct = different case line after dropping the id",
